@@ -104,6 +104,7 @@ type mSess struct {
 	pdrAmb map[uint64]bool // list ambiguous after an Update PDR without URR ID
 	urr    map[uint32]*mURR
 	dpURR  map[uint32]bool // URR believed present in the data plane (no faults)
+	taken  bool            // its control was taken over by another node id at some point
 }
 
 type mNode struct {
@@ -125,6 +126,9 @@ type Analyzer struct {
 	NoFaults                                                                        bool
 	// refused: rules whose removal the data plane refused (injected): they stay installed through no fault of the UPF
 	refused map[RuleKey]bool
+	// outst: report steps whose Session Report Request is still outstanding at the UPF (not answered, not given up)
+	outst       map[int]*mSess
+	LateAnswers int
 }
 
 func (a *Analyzer) add(prop, sig, desc string, step int) {
@@ -179,6 +183,7 @@ func Analyze(tr *Trace) *Analyzer {
 		}
 	}
 	a.refused = map[RuleKey]bool{}
+	a.outst = map[int]*mSess{}
 	upfAddr := tr.UPFIP + ":8805"
 	for _, st := range tr.Steps {
 		if !st.Sent || st.Post == nil {
@@ -230,6 +235,40 @@ func Analyze(tr *Trace) *Analyzer {
 			}
 		}
 
+		var lateAmb []*mSess
+		lateSkip := false
+		if op.K == "lateans" {
+			s0, out := a.outst[op.Ref]
+			delete(a.outst, op.Ref)
+			a.LateAnswers++
+			switch {
+			case !out || s0 == nil || op.Answer != "seid0":
+				// the request is no longer outstanding (given up), or the answer is an ordinary one: nothing may change
+			case s0.taken:
+				lateSkip = true // whose peer "matches" after a take-over is not fixed by the statement
+				for _, s2 := range a.sess {
+					if s2.alive {
+						targets[s2.up] = true
+					}
+				}
+			case s0.alive:
+				target = s0
+				targets[s0.up] = true
+				ending[s0.up] = true
+			default:
+				// the session the report was about is gone; a later session of the same peer with the same CP-SEID
+				// matches the answer just as well (either outcome is accepted for those)
+				for _, s2 := range a.sess {
+					if s2.alive && s2.node == s0.node && s2.cp == s0.cp {
+						lateAmb = append(lateAmb, s2)
+						targets[s2.up] = true
+					}
+				}
+			}
+		}
+		if op.K == "txto" {
+			a.outst = map[int]*mSess{}
+		}
 		if op.K == "txto" && st.Pre != nil {
 			// C11: the counter of a URR moves with the emission of a report and with nothing else
 			for si, ps := range st.Pre.Slots {
@@ -399,17 +438,19 @@ func Analyze(tr *Trace) *Analyzer {
 			noEffect = st.Rsp == nil
 		case "urep", "dldr":
 			noEffect = target == nil
+		case "lateans":
+			noEffect = target == nil && len(lateAmb) == 0 && !lateSkip
 		}
 		if noEffect {
 			prop := "C08"
-			if (op.K == "mod" || op.K == "del" || op.K == "urep") && target == nil {
+			if (op.K == "mod" || op.K == "del" || op.K == "urep" || op.K == "lateans") && target == nil {
 				prop = "C04"
 			}
 			if len(st.Calls) > 0 {
 				a.add(prop, "side-effect-calls", fmt.Sprintf("request without effect caused data-plane calls: %s", J(st.Calls)), i)
 			}
 			if !reflect.DeepEqual(st.Pre.Slots, st.Post.Slots) || !reflect.DeepEqual(st.Pre.Free, st.Post.Free) ||
-				!reflect.DeepEqual(st.Pre.Nodes, st.Post.Nodes) || !reflect.DeepEqual(st.Pre.Tx, st.Post.Tx) {
+				!reflect.DeepEqual(st.Pre.Nodes, st.Post.Nodes) || (op.K != "lateans" && !reflect.DeepEqual(st.Pre.Tx, st.Post.Tx)) {
 				a.add(prop, "side-effect-state", "rejected/unanswered request changed session, node or transaction state", i)
 			}
 			if !reflect.DeepEqual(st.DPPre, st.DPPost) {
@@ -525,6 +566,7 @@ func Analyze(tr *Trace) *Analyzer {
 				delete(a.nodes, target.node)
 				a.nodes[nw] = &mNode{assoc: true, addr: addr}
 				target.node = nw
+				target.taken = true
 			}
 			if target != nil {
 				a.c11c12(st, target, false)
@@ -573,6 +615,31 @@ func Analyze(tr *Trace) *Analyzer {
 					target.alive = false
 					delete(a.byUP, target.up)
 					a.Teardowns++
+				}
+			}
+			if op.Answer == "ignore" && len(st.Reports) > 0 {
+				a.outst[i] = target
+			}
+		case "lateans":
+			if target != nil && ending[target.up] {
+				target.alive = false
+				delete(a.byUP, target.up)
+				a.Teardowns++
+			}
+			post := liveSet(st.Post)
+			for _, s2 := range lateAmb {
+				if _, still := post[s2.up]; !still {
+					s2.alive = false
+					delete(a.byUP, s2.up)
+					a.Teardowns++
+				}
+			}
+			if lateSkip {
+				for _, s2 := range a.sess {
+					if _, still := post[s2.up]; s2.alive && !still {
+						s2.alive = false
+						delete(a.byUP, s2.up)
+					}
 				}
 			}
 		}
